@@ -22,8 +22,12 @@ import (
 	icahosttypes "github.com/cosmos/ibc-go/v11/modules/apps/27-interchain-accounts/host/types"
 	icatypes "github.com/cosmos/ibc-go/v11/modules/apps/27-interchain-accounts/types"
 	clienttypes "github.com/cosmos/ibc-go/v11/modules/core/02-client/types"
+	connectiontypes "github.com/cosmos/ibc-go/v11/modules/core/03-connection/types"
 	channeltypes "github.com/cosmos/ibc-go/v11/modules/core/04-channel/types"
 	host "github.com/cosmos/ibc-go/v11/modules/core/24-host"
+
+	ibctesting "github.com/cosmos/ibc-go/v11/testing"
+	ibcmock "github.com/cosmos/ibc-go/v11/testing/mock"
 
 	"verif/harness/ksim"
 )
@@ -90,7 +94,7 @@ func Version(l *ksim.Link, encoding string) string {
 
 // Register delivers MsgRegisterInterchainAccount signed by owner on the controller chain.
 func Register(w *ksim.World, l *ksim.Link, owner, version string, order channeltypes.Order) (string, ksim.Result) {
-	r := w.Tx(A, icacontrollertypes.NewMsgRegisterInterchainAccount(l.ConnA, owner, version, order))
+	r := w.Tx(l.A, icacontrollertypes.NewMsgRegisterInterchainAccount(l.ConnA, owner, version, order))
 	if r.Class != ksim.OK {
 		return "", r
 	}
@@ -156,11 +160,11 @@ var noProof = ksim.Result{Class: ksim.ERR, Code: "harness/no-proof"}
 // Try relays ChanOpenTry for the controller channel a (as it is on chain A now) to the host chain with a
 // proof at the latest height of the host's client. hostPort is normally HostPort.
 func Try(w *ksim.World, l *ksim.Link, a Chan) (string, ksim.Result) {
-	proof, ph, ok := latestProof(w, B, l.ClientB, A, host.ChannelKey(a.Port, a.ID))
+	proof, ph, ok := latestProof(w, l.B, l.ClientB, l.A, host.ChannelKey(a.Port, a.ID))
 	if !ok {
 		return "", noProof
 	}
-	r := w.Tx(B, channeltypes.NewMsgChannelOpenTry(a.Counterparty.PortId, a.Version, a.Ordering, []string{l.ConnB}, a.Port, a.ID, a.Version, proof, ph, ksim.Signer))
+	r := w.Tx(l.B, channeltypes.NewMsgChannelOpenTry(a.Counterparty.PortId, a.Version, a.Ordering, []string{l.ConnB}, a.Port, a.ID, a.Version, proof, ph, ksim.Signer))
 	if r.Class != ksim.OK {
 		return "", r
 	}
@@ -173,29 +177,29 @@ func Try(w *ksim.World, l *ksim.Link, a Chan) (string, ksim.Result) {
 
 // Ack relays ChanOpenAck for the host channel b (as it is on chain B now) to the controller chain.
 func Ack(w *ksim.World, l *ksim.Link, b Chan) ksim.Result {
-	proof, ph, ok := latestProof(w, A, l.ClientA, B, host.ChannelKey(b.Port, b.ID))
+	proof, ph, ok := latestProof(w, l.A, l.ClientA, l.B, host.ChannelKey(b.Port, b.ID))
 	if !ok {
 		return noProof
 	}
-	return w.Tx(A, channeltypes.NewMsgChannelOpenAck(b.Counterparty.PortId, b.Counterparty.ChannelId, b.ID, b.Version, proof, ph, ksim.Signer))
+	return w.Tx(l.A, channeltypes.NewMsgChannelOpenAck(b.Counterparty.PortId, b.Counterparty.ChannelId, b.ID, b.Version, proof, ph, ksim.Signer))
 }
 
 // Confirm relays ChanOpenConfirm for the host channel b to the host chain.
 func Confirm(w *ksim.World, l *ksim.Link, b Chan) ksim.Result {
-	proof, ph, ok := latestProof(w, B, l.ClientB, A, host.ChannelKey(b.Counterparty.PortId, b.Counterparty.ChannelId))
+	proof, ph, ok := latestProof(w, l.B, l.ClientB, l.A, host.ChannelKey(b.Counterparty.PortId, b.Counterparty.ChannelId))
 	if !ok {
 		return noProof
 	}
-	return w.Tx(B, channeltypes.NewMsgChannelOpenConfirm(b.Port, b.ID, proof, ph, ksim.Signer))
+	return w.Tx(l.B, channeltypes.NewMsgChannelOpenConfirm(b.Port, b.ID, proof, ph, ksim.Signer))
 }
 
 // CloseConfirm relays ChanCloseConfirm for the host channel b (its controller end being CLOSED) to the host chain.
 func CloseConfirm(w *ksim.World, l *ksim.Link, b Chan) ksim.Result {
-	proof, ph, ok := latestProof(w, B, l.ClientB, A, host.ChannelKey(b.Counterparty.PortId, b.Counterparty.ChannelId))
+	proof, ph, ok := latestProof(w, l.B, l.ClientB, l.A, host.ChannelKey(b.Counterparty.PortId, b.Counterparty.ChannelId))
 	if !ok {
 		return noProof
 	}
-	return w.Tx(B, channeltypes.NewMsgChannelCloseConfirm(b.Port, b.ID, proof, ph, ksim.Signer))
+	return w.Tx(l.B, channeltypes.NewMsgChannelCloseConfirm(b.Port, b.ID, proof, ph, ksim.Signer))
 }
 
 // HostChanFor finds the host channel end whose counterparty is the controller channel (port, id).
@@ -222,19 +226,19 @@ func Open(w *ksim.World, l *ksim.Link, owner, encoding string, order channeltype
 	chanA, r := Register(w, l, owner, Version(l, encoding), order)
 	ksim.MustOK("register interchain account", r)
 	port := Port(owner)
-	w.Sync(B, l.ClientB, A)
-	a, _ := ChanByN(w, A, chanSeq(chanA))
+	w.Sync(l.B, l.ClientB, l.A)
+	a, _ := ChanByN(w, l.A, chanSeq(chanA))
 	if a.Port != port {
 		panic("icaworld: registered channel not found on the owner's port")
 	}
 	chanB, r := Try(w, l, a)
 	ksim.MustOK("ica chan try", r)
-	w.Sync(A, l.ClientA, B)
-	b, _ := ChanByN(w, B, chanSeq(chanB))
+	w.Sync(l.A, l.ClientA, l.B)
+	b, _ := ChanByN(w, l.B, chanSeq(chanB))
 	ksim.MustOK("ica chan ack", Ack(w, l, b))
-	w.Sync(B, l.ClientB, A)
+	w.Sync(l.B, l.ClientB, l.A)
 	ksim.MustOK("ica chan confirm", Confirm(w, l, b))
-	addr, ok := w.W.Chains[B].App.ICAHostKeeper.GetInterchainAccountAddress(w.CS[B].Ctx, l.ConnB, port)
+	addr, ok := w.W.Chains[l.B].App.ICAHostKeeper.GetInterchainAccountAddress(w.CS[l.B].Ctx, l.ConnB, port)
 	if !ok {
 		panic("icaworld: host did not register the interchain account")
 	}
@@ -261,8 +265,8 @@ func PacketData(w *ksim.World, msgs []proto.Message, encoding, memo string) (ica
 // SendTx delivers MsgSendTx signed by owner on the controller chain and reconstructs the packet it committed.
 // chanA/chanB must be the active channel pair of the owner (used only to fill in the packet fields).
 func SendTx(w *ksim.World, l *ksim.Link, owner string, relTimeout uint64, data icatypes.InterchainAccountPacketData, chanA, chanB string) (channeltypes.Packet, ksim.Result) {
-	abs := uint64(w.CS[A].TimeNs()) + relTimeout
-	r := w.Tx(A, icacontrollertypes.NewMsgSendTx(owner, l.ConnA, relTimeout, data))
+	abs := uint64(w.CS[l.A].TimeNs()) + relTimeout
+	r := w.Tx(l.A, icacontrollertypes.NewMsgSendTx(owner, l.ConnA, relTimeout, data))
 	if r.Class != ksim.OK {
 		return channeltypes.Packet{}, r
 	}
@@ -306,4 +310,22 @@ func AckFromEvents(r ksim.Result) []byte {
 		}
 	}
 	return nil
+}
+
+// SkewedLink builds the client / connection path between controller chain a and host chain b after burning one
+// client identifier, one connection identifier and two channel identifiers on the controller chain, so that no
+// identifier of the path (client, connection, later channels) is the same on both ends.
+func SkewedLink(w *ksim.World, a, b int) *ksim.Link {
+	dummy, r := w.CreateClient(a, b)
+	ksim.MustOK("dummy client", r)
+	ksim.MustOK("dummy connection", w.Tx(a, connectiontypes.NewMsgConnectionOpenInit(dummy, "07-tendermint-7", ksim.Prefix, ibctesting.DefaultOpenInitVersion, 0, ksim.Signer)))
+	l := w.SetupClients(a, b)
+	w.SetupConnection(l, 0)
+	for i := 0; i < 2; i++ {
+		ksim.MustOK("dangling channel", w.Tx(a, channeltypes.NewMsgChannelOpenInit(ibcmock.PortID, ibcmock.Version, channeltypes.UNORDERED, []string{l.ConnA}, ibcmock.PortID, ksim.Signer)))
+	}
+	if l.ClientA == l.ClientB || l.ConnA == l.ConnB {
+		panic("icaworld: link identifiers are not asymmetric")
+	}
+	return l
 }
